@@ -65,8 +65,12 @@ pub fn pair_oracle(which: Which) -> impl Fn(&PairItem, &mut Stats) -> Result<(),
     let g = GGM::setup();
     let orig = original(&g)?;
     let all: Vec<u8> = (0..=255u8).collect();
-    let mut ta = Tracked { g, punctured: BTreeSet::new() };
+    let closure = if which.c11 { Prg::for_fresh_key(&g, &orig) } else { None };
+    let mut ta = Tracked { g, punctured: BTreeSet::new(), closure };
     step(&mut ta, c.a, &orig, which, &all, st)?;
+    if which.c11 {
+      check_derivability(&ta, &orig, st)?;
+    }
     for b in 0..=255u8 {
       if b == c.a {
         continue;
@@ -85,6 +89,9 @@ pub fn pair_oracle(which: Which) -> impl Fn(&PairItem, &mut Stats) -> Result<(),
         s
       };
       step(&mut t, b, &orig, which, &scope, st)?;
+      if which.c11 && (c.a as u32 * 31 + b as u32) % 64 == 0 {
+        check_derivability(&t, &orig, st)?;
+      }
       st.nontrivial(&(c.a, b));
       if full {
         st.class("pair-with-full-sweep");
@@ -174,7 +181,8 @@ pub fn history_oracle(which: Which) -> impl Fn(&History, &mut Stats) -> Result<(
     let g = GGM::setup();
     let orig = original(&g)?;
     let all: Vec<u8> = (0..=255u8).collect();
-    let mut t = Tracked { g, punctured: BTreeSet::new() };
+    let closure = if which.c11 { Prg::for_fresh_key(&g, &orig) } else { None };
+    let mut t = Tracked { g, punctured: BTreeSet::new(), closure };
     let mut order: Vec<u8> = Vec::new();
     let mut prev: u8 = 0;
     let mut steps = 0usize;
@@ -191,7 +199,11 @@ pub fn history_oracle(which: Which) -> impl Fn(&History, &mut Stats) -> Result<(
       if !t.punctured.contains(&x) {
         order.push(x);
       }
-      step(t, x, &orig, which, &scope, st)
+      step(t, x, &orig, which, &scope, st)?;
+      if which.c11 && (order.len() <= 3 || *steps % 16 == 0) {
+        check_derivability(t, &orig, st)?;
+      }
+      Ok(())
     };
     for op in &h.ops {
       match op {
